@@ -89,6 +89,7 @@ func (e *Engine) readInto(st *State, id string, buf *SliceVal, ok bool, tag stri
 			}
 		} else if buf.reg.dyn && buf.off.IsConst() && buf.off.Val.Sign() == 0 && buf.length.Key() == buf.reg.dynLen.Key() {
 			st.mem.cells[pathKey(buf.reg.id, nil)] = out
+			st.markWritten(pathKey(buf.reg.id, nil))
 		} else if buf.length.IsConst() {
 			for i := int64(0); i < buf.length.Val.Int64(); i++ {
 				e.sliceElemStore(st, buf, mkInt64(i), mkSelect(out, mkInt64(i)))
